@@ -12,7 +12,7 @@ ASSUMPTIONS = ["for a task awaited by two parents nothing is asserted about whic
 
 
 def strat_async(tier):
-    return gen.programs(gen.Cfg(max_tasks=12 if tier == "quick" else 40, sync=True, ctx=("rec", "rec", "ov"), dag=True, tools=("agen", "agen", "cwc", "dd", "alru", "amap"), convs=("call", "value", "wrapper"),
+    return gen.programs(gen.Cfg(max_tasks=12 if tier == "quick" else 40, sync=True, ctx=("rec", "rec", "ov"), dag=True, premade=True, tools=("agen", "agen", "cwc", "dd", "alru", "amap"), convs=("call", "value", "wrapper"),
                                 shapes=("ctxcomb", "ctxcomb", "chain", "tree", "comb", "stagger", "reentry", "reentry", "diamond", "free", "free")))
 
 
